@@ -470,19 +470,26 @@ def _check_out_fit_ranges(
     target_fit_range: FitRange2D | FitRange3D,
     out_fit_range: FitRange2D | FitRange3D,
 ):
+    def _has_different_lengths(first: slice, second: slice) -> bool:
+        if first.stop is None or second.stop is None:
+            # An open-ended range can only be compared with another open-ended range
+            return (first.stop, first.start or 0) != (second.stop, second.start or 0)
+
+        return (first.stop - (first.start or 0)) != (second.stop - (second.start or 0))
+
     if (
         isinstance(target_fit_range, FitRange3D)
         and isinstance(out_fit_range, FitRange3D)
-        and target_fit_range.time.stop != out_fit_range.time.stop
+        and _has_different_lengths(target_fit_range.time, out_fit_range.time)
     ):
         raise ValueError(
             "Fitting ranges have different lengths in dimension 'readout time'"
         )
 
-    if target_fit_range.row.stop != out_fit_range.row.stop:
+    if _has_different_lengths(target_fit_range.row, out_fit_range.row):
         raise ValueError("Fitting ranges have different lengths in dimension 'y'")
 
-    if target_fit_range.col.stop != out_fit_range.col.stop:
+    if _has_different_lengths(target_fit_range.col, out_fit_range.col):
         raise ValueError("Fitting ranges have different lengths in dimension 'x'")
 
 
